@@ -3,6 +3,7 @@ import json
 import os
 import vlib
 import m_bitmap
+import m_volatile
 
 
 def c09(ctx):
@@ -10,6 +11,13 @@ def c09(ctx):
 
 
 PROPS = {
+    "C01": m_volatile.run,
+    "C04": m_volatile.run,
+    "C05": m_volatile.run,
+    "C16": m_volatile.run,
+    "C17": m_volatile.run,
+    "C18": m_volatile.run,
+    "C07": m_volatile.run,
     "C09": c09,
 }
 
